@@ -130,7 +130,9 @@ func oracleC08(f *sessionFam, w *World, res *Result) []Violation {
 					st := f.snap[a]
 					// the flag may belong to a later candidate (retry): only a session with no candidate after the failed one is judged
 					allStarts := w.evs(a, "c-probe-start")
-					laterCand := len(allStarts) > 0 && len(ends) > 0 && allStarts[len(allStarts)-1].Seq > ends[0].Seq
+					// (the client notices the end of a scripted candidate only when it next touches it, possibly long after
+					// the server dropped it: any second candidate at all is enough to leave the flag unjudged)
+					laterCand := len(allStarts) >= 2
 					if laterCand || sp.Upgrade != "" {
 						st = "" // a second (conformant) candidate ran next to the scripted one: the flag may be its own
 					}
